@@ -15,7 +15,7 @@ def make_pool(rng, size=None):
     size = size or rng.choice(deep([2, 3, 4, 5, 6, 8, 10, 12, 16, 24], [2, 3, 4, 6, 8, 12, 16, 24, 40, 64]))
     style = rng.choice(["fixed1", "fixed2", "fixed4", "fixed32", "var", "var", "var"])
     r = rng.random()
-    if 0.05 < r < 0.12:
+    if 0.05 < r < 0.2:
         style = "spine"
     if r < 0.01:
         style = "huge"
@@ -180,6 +180,11 @@ class BHistory:
             return {"op": "sub", "k": hx(k)}
         else:
             k = rng.choice(self.pool) if rng.random() < 0.85 else rng.choice(self.probes)
+        if kind == "set" and present and rng.random() < 0.12:
+            # aim at the refusal: a pool key that is a proper prefix of a stored key
+            above = [p for p in self.pool if any(q != p and q.startswith(p) for q in present)]
+            if above:
+                k = rng.choice(above)
         if kind == "set":
             v = rng.choice(self.values)
             present[k] = v
